@@ -20,6 +20,7 @@ import SSEPyVerif.Proofs.Schemes.PiPtr
 import SSEPyVerif.Proofs.Schemes.ANSS16
 import SSEPyVerif.Proofs.Schemes.CT14
 import SSEPyVerif.Proofs.Schemes.SSE1
+import SSEPyVerif.Proofs.Schemes.Pi2Lev
 namespace SSEPy.C01
 open SSEPy.Sch SSEPy.Sch.Chain
 
@@ -125,6 +126,23 @@ theorem SSE1.search_stored (raw : RawCfg) (cfg : SSE1Cfg) (hcfg : SSE1.cfgBuild 
     (fun key iv msg c hiv he => ske_dec_enc lv hl cfg.ske1 hplain key iv msg c hiv he) hlb K1 K2 K3 K4 db t t' edb hs
     (SSE1.psiInj_of_leaves cfg lv hl.hmac_len h2 K1 db.total) (SSE1.psiLen_of_leaves cfg lv hl.hmac_len h2 K1)
     hk hidl hkeys hg w ids hm hsz hfresh
+
+/-- Pi2Lev (schemes/CJJ14/Pi2Lev): small lists inside the dictionary block, medium lists through one level of pointers,
+    large lists through two; the level marks make the loop of `search` pick the right block capacity at each level.
+    All three cases, every list length the configuration admits (the boundaries `b`, `B·b'` and `B·B'·b'` included).
+    Hypotheses: the pointer width is positive (`param_B·idsize ≥ param_B'`), the recorded `random.sample` is duplicate-free
+    and positive, the dictionary labels of this run are distinct. -/
+theorem Pi2Lev.search_stored (raw : RawCfg) (cfg : Pi2LevCfg) (hcfg : Pi2Lev.cfgBuild raw = .ok cfg) (hidx : 0 < cfg.idxSize)
+    (lv : Leaves) (hl : LeafLaws lv) (K : Bytes) (db : DB) (t t' : Tape) (edb : PiPtrEDB)
+    (hs : Pi2Lev.setup cfg lv K db t = .ok (edb, t'))
+    (hsample : ∀ avail t0, takeNats t = .ok (avail, t0) → avail.Nodup ∧ ∀ p ∈ avail, 0 < p)
+    (w : Bytes) (ids : List Bytes) (hm : (w, ids) ∈ db) (hne : ids ≠ []) (hv : C17.ValidIds ids cfg.idSize.toNat)
+    (hnc : ∀ L A avail t0, takeNats t = .ok (avail, t0) →
+      Pi2Lev.encDb cfg lv K db avail (List.replicate (Pi2Lev.arrayLen cfg db) none) t0 = .ok (L, A, t') → (L.map (·.1)).Nodup) :
+    ∃ tk, Pi2Lev.token cfg lv K w = .ok tk ∧ Pi2Lev.search cfg lv edb tk = .ok ids := by
+  obtain ⟨hg, hplain⟩ := Pi2Lev.cfgBuild_ok cfg raw hcfg hidx
+  exact Pi2Lev.search_present cfg lv (fun key iv msg c hiv he => ske_dec_enc lv hl cfg.ske hplain key iv msg c hiv he)
+    hg K db t t' edb hs hsample w ids hm hne hv hnc
 
 /-- SSE-2 (schemes/CGKO06/SSE2): the hypotheses are about this run's PRP values — the addresses of the stored postings
     are pairwise distinct and the address one past a list's end is not a stored address (both follow from the PRP being a
